@@ -54,6 +54,11 @@ import (
 	"go.opentelemetry.io/collector/component/componenttest"
 	"go.opentelemetry.io/collector/config/configauth"
 	"go.opentelemetry.io/collector/config/configcompression"
+	"go.opentelemetry.io/collector/pdata/pcommon"
+	"go.opentelemetry.io/collector/pdata/plog"
+	"go.opentelemetry.io/collector/pdata/pmetric"
+	"go.opentelemetry.io/collector/pdata/pprofile"
+	"go.opentelemetry.io/collector/pdata/ptrace"
 	"go.opentelemetry.io/collector/config/configgrpc"
 	"go.opentelemetry.io/collector/config/confighttp"
 	"go.opentelemetry.io/collector/config/configmiddleware"
@@ -88,6 +93,8 @@ type planLine struct {
 	Wellformed bool    `json:"wellformed"`
 	Items      string  `json:"items"`
 	Recv       string  `json:"recv"` // peer: the real receiver in configuration off | auth | restricted, or "stub"
+	Big        bool    `json:"big,omitempty"`    // the payload is padded to several hundred KiB (beyond one compressor block / window)
+	CLevel     int     `json:"clevel,omitempty"` // exporter compression level (compression_params::level), 0 = the default
 	Outcome    outcome `json:"outcome"`
 	Stub       struct {
 		Status int   `json:"status"`
@@ -503,7 +510,7 @@ func compType(comp string) configcompression.Type {
 }
 
 func (e *env) exporter(p planLine) (*expEnv, error) {
-	key := strings.Join([]string{p.Transport, p.Media, p.Comp, p.Auth, p.Recv, p.Signal}, "|")
+	key := strings.Join([]string{p.Transport, p.Media, p.Comp, p.Auth, p.Recv, p.Signal, strconv.Itoa(p.CLevel)}, "|")
 	e.mu.Lock()
 	defer e.mu.Unlock()
 	if x, ok := e.exps[key]; ok {
@@ -543,6 +550,9 @@ func (e *env) exporter(p planLine) (*expEnv, error) {
 		cfg.ClientConfig.Endpoint = "http://" + re.httpAddr
 		cfg.ClientConfig.Timeout = 20 * time.Second
 		cfg.ClientConfig.Compression = compType(p.Comp)
+		if p.CLevel != 0 {
+			cfg.ClientConfig.CompressionParams = configcompression.CompressionParams{Level: configcompression.Level(p.CLevel)}
+		}
 		cfg.ClientConfig.Headers = hdrs
 		cfg.ClientConfig.Middlewares = []configmiddleware.Config{{ID: tapID}}
 		if p.Media == "json" {
@@ -715,6 +725,9 @@ func (e *env) attempt(p planLine, seed int64) (outLine, string, error) {
 	id := fmt.Sprintf("case-%d", p.ID)
 	r := rand.New(rand.NewSource(seed*7919 + int64(p.ID)))
 	payload := ops.gen(id, r, p.Items == "zero")
+	if p.Big {
+		pad(payload, r)
+	}
 	sc := &script{out: p.Outcome, want: ops.marshal(payload)}
 	e.consumer.register(id, sc)
 	re := e.recvs[p.Recv]
@@ -950,4 +963,36 @@ func main() {
 	if bad > 0 {
 		os.Exit(3)
 	}
+}
+
+// pad inflates a payload to 300-900 KiB with a resource attribute that is partly repetitive and partly random text: larger
+// than one block / the smallest window of every supported compressor, whatever the level ("any supported compression").
+func pad(payload any, r *rand.Rand) {
+	var m pcommon.Map
+	switch x := payload.(type) {
+	case ptrace.Traces:
+		m = x.ResourceSpans().At(0).Resource().Attributes()
+	case pmetric.Metrics:
+		m = x.ResourceMetrics().At(0).Resource().Attributes()
+	case plog.Logs:
+		m = x.ResourceLogs().At(0).Resource().Attributes()
+	case pprofile.Profiles:
+		m = x.ResourceProfiles().At(0).Resource().Attributes()
+	default:
+		return
+	}
+	n := 300<<10 + r.Intn(600<<10)
+	var b strings.Builder
+	b.Grow(n + 64)
+	const alpha = "abcdefghijklmnopqrstuvwxyzABCDEFGHIJKLMNOPQRSTUVWXYZ0123456789+/"
+	for b.Len() < n {
+		if r.Intn(3) == 0 {
+			b.WriteString("the quick brown fox jumps over the lazy dog; ")
+		} else {
+			for i := 0; i < 48; i++ {
+				b.WriteByte(alpha[r.Intn(len(alpha))])
+			}
+		}
+	}
+	m.PutStr("verif.pad", b.String())
 }
